@@ -56,8 +56,18 @@ def fn():
 
 def run_case(case):
     x, err = float(case["x"]), float(case["err"])
-    with under_test("format_number_with_error"):
-        s = fn()(x, err)
+    if case.get("dec"):
+        # the caller happens to work with a reduced decimal context: the
+        # string is a function of (x, err) alone
+        import decimal
+        with decimal.localcontext() as ctx:
+            ctx.prec = case["dec"]
+            ctx.rounding = decimal.ROUND_DOWN
+            with under_test("format_number_with_error"):
+                s = fn()(x, err)
+    else:
+        with under_test("format_number_with_error"):
+            s = fn()(x, err)
     bad = oracle.check(x, err, s)
     if bad is not None:
         raise PropertyViolation(bad[0], f"x={x!r} err={err!r}: {bad[1]}")
@@ -109,7 +119,10 @@ def strategy(draw):
             x = -x
         ee = xe + draw(st.integers(-12, 12))
     err = min(draw(_mant()) * 10.0 ** max(-300, min(308, ee)), FMAX)
-    return {"x": x, "err": err}
+    case = {"x": x, "err": err}
+    if draw(st.integers(0, 9)) == 0:
+        case["dec"] = draw(st.sampled_from([3, 6, 9]))
+    return case
 
 
 # ------------------------------------------------------------------- lattice
